@@ -112,7 +112,9 @@ def c17_case(draw):
     # a bare name must not pick up lines of deeper levels that would make the expansion cyclic: names of
     # alternative lines never occur below themselves because every level draws from fresh `done` names only
     return {"items": head + rest, "layout": draw(st.one_of(st.just([]), st.lists(st.integers(0, 11), min_size=2, max_size=16))), "crlf": draw(st.integers(0, 5)) == 0,
-            "nofinal": draw(st.sampled_from((False, False, True)))}
+            "nofinal": draw(st.sampled_from((False, False, True))),
+            # which reader class is asked, and what the same class read just before (nothing, a polar file, a cartesian file)
+            "reader": draw(st.sampled_from(("base", "base", "goofit", "goofitpy"))), "before": draw(st.sampled_from((None, None, "polar", "cart")))}
 
 
 def acyclic(a):
@@ -184,8 +186,24 @@ def check_case(a, rec):
         rec.case(a, False, ["skipped-cyclic-or-too-big"])
         return
     text = A.render(a)
+    reader = a.get("reader", "base")
+    if reader == "base":
+        cls = AmplitudeChain
+    else:
+        from decaylanguage.modeling import goofit as _g
+
+        cls = _g.GooFitChain if reader == "goofit" else _g.GooFitPyChain
+    if a.get("before"):
+        first = "EventType D0 K- pi+ pi+ pi-\n" + ("FastCoherentSum::UseCartesian 1\n" if a["before"] == "cart" else "") + \
+            "D0{K*(892)bar0{K-,pi+},rho(770)0{pi+,pi-}} 2 1 0 2 0.5 0\n"
+        with impl(ID, "read_ampgen (an earlier file)"):
+            cls.read_ampgen(text=first)
     with impl(ID, "read_ampgen"):
-        lines, pars, consts, states = AmplitudeChain.read_ampgen(text=text)
+        if reader == "base":
+            lines, pars, consts, states = cls.read_ampgen(text=text)
+        else:
+            lines, states = cls.read_ampgen(text=text)  # the converter classes keep the two tables on the class
+            pars, consts = cls.pars, cls.consts
     A.ensure_special_table()
     ref = A.ref_read(a)
     got_states = [int(s.pdgid) for s in states]
@@ -221,6 +239,7 @@ def check_case(a, rec):
     multi_alt = any(names.count(n) >= 2 and A.ALL_IDS[n] != ref["event"][0] for n in names)
     has_cart = any(i["k"] == "cart" for i in a["items"])
     classes = ["cartesian-%s" % next((str(i["v"]) for i in a["items"] if i["k"] == "cart"), "absent")]
+    classes.append("reader-" + a.get("reader", "base") + ("-after-a-%s-file" % a["before"] if a.get("before") else ""))
     if multi_alt:
         classes.append("bare-name-with->=2-alternatives")
     if len(ref["amps"]) > sum(1 for n in names if A.ALL_IDS[n] == ref["event"][0]):
